@@ -7,6 +7,7 @@ import FFVerif.Model.Superop
 import FFVerif.Model.Analytic
 import FFVerif.Model.Diag
 import FFVerif.Model.Tensor
+import FFVerif.Model.SecondOrder
 
 namespace FFVerif.Model
 open FFVerif FFVerif.Proto
@@ -42,7 +43,7 @@ def handleMore (toks : List String) : String :=
     "ok " ++ showFloats #[v]
   | toks =>
     -- components that live in their own model files
-    let handlers : List (List String → Option String) := [handleDiag, Tensor.handleTensor]
+    let handlers : List (List String → Option String) := [handleDiag, Tensor.handleTensor, handleSecondOrder]
     match handlers.findSome? (fun h => h toks) with
     | some r => r
     | none => "err bad-op"
